@@ -903,7 +903,13 @@ func peerRoute(p netip.Addr) m.RoutingTableEntry {
 func churnRun(res *core.Result, r *rand.Rand, kind int, bulk int, keyPrefix string) {
 	cfg, routerIP, desc := realConfig(r, kind)
 	tbl := m.NewRoutingTable(cfg)
-	own16, _ := routerIP.Prefix(16)
+	// the stable destinations and the churn around them live in the router's own prefix, whose per-prefix limit
+	// (1024) the run stays far below: the housekeeping must never have a reason to trim them
+	if len(cfg.RoutablePrefixes) == 0 || cfg.RoutablePrefixes[0].EntriesPerPrefix < 1024 || !cfg.RoutablePrefixes[0].BasePrefix.Contains(routerIP) {
+		res.Count("churn_runs_skipped_no_own_prefix", 1)
+		return
+	}
+	own16 := cfg.RoutablePrefixes[0].BasePrefix
 	var violated atomic.Bool
 	violate := func(sig, msg string) {
 		if violated.CompareAndSwap(false, true) {
